@@ -378,7 +378,7 @@ def push_select_ite(e):
     return res
 
 
-def check_obligation(vc, ob, rlimit=RLIMIT, use_cvc5=True):
+def check_obligation(vc, ob, rlimit=RLIMIT, use_cvc5=True, timeout_ms=None):
     """Discharge one obligation. Sets ob.status/backend/time/model."""
     t0 = time.time()
     if not getattr(ob, "_pushed", False):
@@ -400,7 +400,7 @@ def check_obligation(vc, ob, rlimit=RLIMIT, use_cvc5=True):
     for tag, facts, mbqi, rl in plans:
         s = z3.Solver()
         s.set("rlimit", rl)
-        s.set("timeout", TIMEOUT_MS)
+        s.set("timeout", timeout_ms or TIMEOUT_MS)
         s.set("mbqi", mbqi)
         for ax in vc.axioms():
             s.add(ax)
